@@ -34,11 +34,18 @@ def build(addr, df, n, payload, hc):
 def s_exact(draw):
     n = draw(st.sampled_from([56, 112]))
     df = draw(st.one_of(st.sampled_from(AP + AA), st.integers(0, 31)))
-    return {"addr": draw(gen.addresses), "df": df, "n": n, "ctx_payload": draw(gen.bits(n - 29)), "hc": draw(gen.hexcase)}
+    return {"addr": draw(gen.addresses), "df": df, "n": n, "ctx_payload": draw(gen.bits(n - 29)), "hc": draw(gen.hexcase),
+            "ap_from_data": draw(gen.uint(0, 40)) if draw(gen.uint(0, 5)) == 0 else None}
 
 
 def chk_exact(case, note):
     addr, df = case["addr"], case["df"]
+    if case.get("ap_from_data") is not None and df in AP:
+        # choose the address so that the transmitted AP field repeats six hex digits of the data part
+        probe = build(0, df, case["n"], case["ctx_payload"], "U")
+        k = case["ap_from_data"] % (len(probe) - 11)
+        addr = int(probe[-6:], 16) ^ int(probe[k:k + 6], 16)
+        note.cls("AP-field-repeats-data-digits")
     msg = build(addr, df, case["n"], case["ctx_payload"], case["hc"])
     r = call(pms.icao, msg)
     note.cls("DF%d" % df, "len%d" % case["n"], case["hc"])
